@@ -32,11 +32,16 @@ for s in seeds:
     try:
         for c in checks:
             t0 = time.time()
+            # the evidence file of the unchanged tree is put back afterwards (a seeded run must not be what is committed)
+            ev = os.path.join(VERIF, "evidence", c + ".json")
+            saved = open(ev).read() if os.path.exists(ev) else None
             p = subprocess.run([os.path.join(VERIF, "check"), c, "--tier", tier], cwd=VERIF, capture_output=True, text=True)
             lines = [l for l in p.stdout.splitlines() if l.startswith(("VIOLATION", "INCONCLUSIVE", "OK", "KNOWN"))]
             rec = {"tier": tier, "exit": p.returncode, "wall_s": round(time.time() - t0), "first": (lines[0][:300] if lines else p.stdout[-300:] + p.stderr[-300:])}
             meta.setdefault("detection", {})["%s/%s" % (c, tier)] = rec
             print(s, c, tier, "exit", p.returncode, rec["wall_s"], "s", rec["first"][:160], flush=True)
+            if saved is not None:
+                open(ev, "w").write(saved)
     finally:
         subprocess.run(["git", "-C", "/repo", "checkout", "--", "."])
         json.dump(meta, open(os.path.join(d, "meta.json"), "w"), indent=1)
